@@ -380,9 +380,19 @@ def addSystemHere (k : Key) (o : Obj) : M Unit := do
     modify (fun s => { s with pending := aerase k s.pending })
     let id ← alloc o
     modify (fun s => { s with options := ainsert k id s.options })
-    match pval with
-    | some pv => do let _ ← setOption k pv false; M.pure ()
-    | none => M.pure ()
+    (match pval with
+      | some pv => do let _ ← setOption k pv false; M.pure ()
+      | none => M.pure ())
+    -- a value given for the top-level project only (`:name`) has waited for the global option as well
+    if k.sub.isNone then do
+      let s1 ← get
+      match alookup k.asRoot s1.pending with
+      | some rv => do
+        modify (fun s => { s with pending := aerase k.asRoot s.pending })
+        let _ ← setOption k.asRoot rv false
+        M.pure ()
+      | none => M.pure ()
+    else M.pure ()
 
 /-- `add_system_option_internal(key, valobj)` -/
 def addSystemInternal (k : Key) (o : Obj) : M Unit := do
